@@ -119,10 +119,13 @@ package fsm
 //@ results err
 //@ modifies nothing
 //@ func snapshot.persistFederationStates
-//@ trusted
+//@ props C02
 //@ opt record persistFederationStates
 //@ results err
-//@ modifies nothing
+//@ requires s != nil && s.state != nil
+//@ ensures[every-row-written] err == nil ==> outLen() == old(outLen()) + 2*len(fedStates) && forall j int :: 0 <= j && j < len(fedStates) ==> outIsBytes(old(outLen()) + 2*j) && eq(outBytes(old(outLen()) + 2*j), byte1(structs.FederationStateRequestType)) && !outIsBytes(old(outLen()) + 2*j + 1) && is[*structs.FederationStateRequest](outObj(old(outLen()) + 2*j + 1)) && allocated(as[*structs.FederationStateRequest](outObj(old(outLen()) + 2*j + 1))) && as[*structs.FederationStateRequest](outObj(old(outLen()) + 2*j + 1)).Op == structs.FederationStateUpsert && as[*structs.FederationStateRequest](outObj(old(outLen()) + 2*j + 1)).State == fedStates[j]
+//@ ensures[every-stored-row-written] err == nil ==> forall k string :: T_federation_states(k) != nil ==> exists j int :: 0 <= j && j < len(fedStates) && as[*structs.FederationStateRequest](outObj(old(outLen()) + 2*j + 1)).State == T_federation_states(k)
+//@ loop 1 invariant[written-so-far] outLen() == old(outLen()) + 2*range1_idx && forall j int :: 0 <= j && j < range1_idx ==> outIsBytes(old(outLen()) + 2*j) && eq(outBytes(old(outLen()) + 2*j), byte1(structs.FederationStateRequestType)) && !outIsBytes(old(outLen()) + 2*j + 1) && is[*structs.FederationStateRequest](outObj(old(outLen()) + 2*j + 1)) && allocated(as[*structs.FederationStateRequest](outObj(old(outLen()) + 2*j + 1))) && as[*structs.FederationStateRequest](outObj(old(outLen()) + 2*j + 1)).Op == structs.FederationStateUpsert && as[*structs.FederationStateRequest](outObj(old(outLen()) + 2*j + 1)).State == fedStates[j]
 //@ func snapshot.persistIndex
 //@ props C02
 //@ opt record persistIndex
@@ -185,10 +188,13 @@ package fsm
 //@ results err
 //@ modifies nothing
 //@ func snapshot.persistSystemMetadata
-//@ trusted
+//@ props C02
 //@ opt record persistSystemMetadata
 //@ results err
-//@ modifies nothing
+//@ requires s != nil && s.state != nil
+//@ ensures[every-row-written] err == nil ==> outLen() == old(outLen()) + 2*len(entries) && forall j int :: 0 <= j && j < len(entries) ==> outIsBytes(old(outLen()) + 2*j) && eq(outBytes(old(outLen()) + 2*j), byte1(structs.SystemMetadataRequestType)) && !outIsBytes(old(outLen()) + 2*j + 1) && outObj(old(outLen()) + 2*j + 1) == any(entries[j])
+//@ ensures[every-stored-row-written] err == nil ==> forall k string :: T_system_metadata(k) != nil ==> exists j int :: 0 <= j && j < len(entries) && outObj(old(outLen()) + 2*j + 1) == any(T_system_metadata(k))
+//@ loop 1 invariant[written-so-far] outLen() == old(outLen()) + 2*range1_idx && forall j int :: 0 <= j && j < range1_idx ==> outIsBytes(old(outLen()) + 2*j) && eq(outBytes(old(outLen()) + 2*j), byte1(structs.SystemMetadataRequestType)) && !outIsBytes(old(outLen()) + 2*j + 1) && outObj(old(outLen()) + 2*j + 1) == any(entries[j])
 //@ func snapshot.persistVirtualIPs
 //@ trusted
 //@ opt record persistVirtualIPs
@@ -249,3 +255,13 @@ package fsm
 //@ results err
 //@ requires restore != nil
 //@ ensures[decoded-bundle-stored] err == nil ==> T_peering_trust_bundles(req.PeerName) != nil && T_peering_trust_bundles(req.PeerName).PeerName == req.PeerName && T_peering_trust_bundles(req.PeerName).TrustDomain == req.TrustDomain && T_peering_trust_bundles(req.PeerName).ModifyIndex == req.ModifyIndex
+
+// restoreFederationState is NOT under contract: it hands req.State of the decoded request to the state restorer, which
+// requires a non-nil object; that holds for every record persistFederationStates writes (contract above: State is the
+// stored row) but not for an arbitrary decoded object, and the decoder model yields arbitrary objects.
+
+//@ func restoreSystemMetadata
+//@ props C02
+//@ results err
+//@ requires restore != nil
+//@ ensures[decoded-entry-stored] err == nil ==> T_system_metadata(req.Key) != nil && T_system_metadata(req.Key).Key == req.Key && T_system_metadata(req.Key).Value == req.Value && T_system_metadata(req.Key).ModifyIndex == req.ModifyIndex
